@@ -90,7 +90,7 @@ def P2(ctx):
     for d in drops:
         root = prog.ident(d)
         ctx.touch(d, 1)
-        w = reach_under(prog, root, assume_calls(DEAD), acc)
+        w = reach_under(prog, root, assume_scenario(prog, DEAD), acc)
         if w is None:
             ctx.ok("P2", d, "no path to an accessor that unwraps `active` when the execution is dead (is_active()=false, panicking()=true)",
                    [prog.fns[d].loc()])
@@ -99,6 +99,40 @@ def P2(ctx):
             ctx.bad("P2", d, "destructor reaches %s without a guard on threads.is_active() / !panicking(): after a deadlock report (no active "
                     "thread) unwinding through this value panics again and aborts the process; path: %s" % (w[-1][0], chain),
                     site_str(prog, w[0][0], w[0][1]), extra=dict(path=w))
+
+
+def P2_wrapper(ctx):
+    """Validates the model `rt::execution(f)` / `rt::synchronize(f)` return f's result (used to see guards of the form
+    `if !rt::execution(|e| e.threads.is_active()) { return }`)."""
+    prog = ctx.prog
+    chain = {
+        "rt::execution": "rt::scheduler::Scheduler::with_execution",
+        "rt::scheduler::Scheduler::with_execution": "rt::scheduler::Scheduler::with_state",
+        "rt::scheduler::Scheduler::with_state": "scoped_tls::ScopedKey::<T>::with",
+        "rt::synchronize": "rt::execution",
+    }
+    for fk, callee in chain.items():
+        fn = need_fn(ctx, "P2-wrapper", fk)
+        if fn is None:
+            continue
+        e = strip(fn.body.expr_of_local(0))
+        ok = e[0] == "call" and e[1] == callee
+        if ok:
+            # the closure handed on calls (and returns the result of) the caller's own closure parameter
+            passes = False
+            for a in e[2]:
+                a = strip(a)
+                if a[0] == "param":
+                    passes = True
+                if a[0] == "agg" and isinstance(a[1], str) and a[1] in prog.fns:
+                    ce = strip(prog.fns[a[1]].body.expr_of_local(0))
+                    if ce[0] == "call" and ce[1].endswith("FnOnce::call_once"):
+                        passes = True
+            ok = passes
+        if ok:
+            ctx.ok("P2-wrapper", fk, "returns the result of its closure via %s" % callee.split("::")[-1], [fn.loc()])
+        else:
+            ctx.bad("P2-wrapper", fk, "%s no longer simply returns its closure's result: guards written through it cannot be trusted" % fk, fn.loc())
 
 
 def P3(ctx):
@@ -111,7 +145,7 @@ def P3(ctx):
         if w_any is None:
             continue
         n += 1
-        w = reach_under(prog, root, assume_calls({"std::thread::panicking": True}), fire)
+        w = reach_under(prog, root, assume_scenario(prog, {"std::thread::panicking": True}), fire)
         if w is None:
             ctx.ok("P3", d, "diagnostics (PanicBuilder::fire) reachable only when not panicking", [prog.fns[d].loc()])
         else:
@@ -194,6 +228,7 @@ def P5(ctx):
 
 def run(ctx):
     P1(ctx)
+    P2_wrapper(ctx)
     P2(ctx)
     P3(ctx)
     P4(ctx)
